@@ -138,6 +138,9 @@ class HubMode(vlib.Mode):
         if f[0] == "burst":
             return ("C03", "burst-delivered-to-wrong-topic-or-sender")
         for j, (t, q) in mem.items():
+            if j in expm and t != expm[j][0]:
+                return ("C03", "member-filed-under-another-topic")      # it will be sent that topic's traffic, and its own topic's not
+        for j, (t, q) in mem.items():
             if j in expm and q > expm[j][1]:
                 if sender is not None and sender < len(clients):
                     if not clients[sender]["w"] or not clients[sender]["member"]:
